@@ -14,7 +14,7 @@ SPEC = dict(
     property="C33",
     component="metrics",
     props_module="Refinery.Props.C33",
-    quick=dict(cases=4000, len=80, shards=4),
+    quick=dict(cases=2000, len=80, shards=4),
     thorough=dict(cases=50000, len=80, shards=16),
     nontrivial=nontrivial,
     rule="cases = random call histories (register / increment / count / gauge / histogram / up / down / store / get, "
